@@ -113,6 +113,14 @@ impl WorkerTree {
             self.reset();
         }
 
+        // work that failed is attempted again on every pass: what made it fail (a required
+        // file that did not exist yet, ...) is not tracked as a dependency and may be gone
+        for work_item in self.graph.node_weights_mut() {
+            if matches!(work_item.status, WorkStatus::Done(Err(_))) {
+                work_item.reset();
+            }
+        }
+
         let total_not_done = self
             .graph
             .node_weights()
